@@ -13,12 +13,15 @@ import (
 	networking "istio.io/api/networking/v1alpha3"
 	"istio.io/istio/pilot/pkg/config/memory"
 	"istio.io/istio/pilot/pkg/model"
+	kubesr "istio.io/istio/pilot/pkg/serviceregistry/kube"
 	"istio.io/istio/pilot/pkg/serviceregistry/serviceentry"
 	"istio.io/istio/pkg/config"
 	"istio.io/istio/pkg/config/mesh"
 	"istio.io/istio/pkg/config/mesh/meshwatcher"
 	"istio.io/istio/pkg/config/schema/collections"
 	"istio.io/istio/pkg/config/schema/gvk"
+	"istio.io/istio/pkg/config/visibility"
+	"istio.io/istio/pkg/util/sets"
 	"istio.io/istio/pkg/kube"
 	"istio.io/istio/pkg/kube/krt"
 	"istio.io/istio/pkg/kube/multicluster"
@@ -39,6 +42,7 @@ import (
 type seSpec struct {
 	name, ns string
 	hosts    []string
+	exportTo []string // ServiceEntry.exportTo as written
 }
 
 type sevCase struct {
@@ -46,6 +50,7 @@ type sevCase struct {
 	apply    bool
 	nsLabels map[string]map[string]string
 	ses      []seSpec
+	kconv    [][2]string // (namespace, annotation value) of the Kubernetes conversion questions
 }
 
 func (c *sevCase) apply1(t []string) bool {
@@ -59,7 +64,9 @@ func (c *sevCase) apply1(t []string) bool {
 		l, _ := decLabels(t[2])
 		c.nsLabels[wire.Dec(t[1])] = l
 	case t[0] == "se" && len(t) == 4:
-		c.ses = append(c.ses, seSpec{wire.Dec(t[1]), wire.Dec(t[2]), decItems(t[3], ",")})
+		c.ses = append(c.ses, seSpec{wire.Dec(t[1]), wire.Dec(t[2]), decItems(t[3], ","), nil})
+	case t[0] == "se" && len(t) == 5:
+		c.ses = append(c.ses, seSpec{wire.Dec(t[1]), wire.Dec(t[2]), decItems(t[3], ","), decItems(t[4], ",")})
 	default:
 		return false
 	}
@@ -110,6 +117,7 @@ func (c *sevCase) realServices() string {
 			Ports:      []*networking.ServicePort{{Number: 80, Name: "http", Protocol: "HTTP"}},
 			Resolution: networking.ServiceEntry_DNS,
 			Location:   networking.ServiceEntry_MESH_EXTERNAL,
+			ExportTo:   se.exportTo,
 		}
 		if _, err := store.Create(config.Config{
 			Meta: config.Meta{GroupVersionKind: gvk.ServiceEntry, Name: se.name, Namespace: se.ns,
@@ -134,13 +142,38 @@ func (c *sevCase) realServices() string {
 	waitSynced(func() bool { svcs = ctl.Services(); return len(svcs) >= want })
 	var items []string
 	for _, s := range svcs {
-		items = append(items, wire.Enc(string(s.Hostname))+"|"+wire.Enc(s.Attributes.Namespace)+"|"+visName(s.Attributes.Visibility))
+		items = append(items, wire.Enc(string(s.Hostname))+"|"+wire.Enc(s.Attributes.Namespace)+"|"+visName(s.Attributes.Visibility)+"|"+showExportSet(s.Attributes.ExportTo))
 	}
 	sort.Strings(items)
 	if len(items) == 0 {
 		return "-"
 	}
 	return strings.Join(items, ",")
+}
+
+// showExportSet: Attributes.ExportTo as the conversion left it (sorted; "nil" = unset).
+func showExportSet(e sets.Set[visibility.Instance]) string {
+	if e == nil {
+		return "nil"
+	}
+	var l []string
+	for x := range e {
+		l = append(l, wire.Enc(string(x)))
+	}
+	sort.Strings(l)
+	if len(l) == 0 {
+		return "-"
+	}
+	return strings.Join(l, "+")
+}
+
+// realKubeExport: the exportTo set the real Kubernetes Service conversion reads from the annotation.
+func realKubeExport(ns, ann string) string {
+	svc := corev1.Service{
+		ObjectMeta: metav1.ObjectMeta{Name: "svc", Namespace: ns, Annotations: map[string]string{"networking.istio.io/exportTo": ann}},
+		Spec:       corev1.ServiceSpec{ClusterIP: "10.0.0.1", Ports: []corev1.ServicePort{{Name: "http", Port: 80}}},
+	}
+	return showExportSet(kubesr.ConvertService(svc, nil, "cluster.local", "c1", "cluster.local").Attributes.ExportTo)
 }
 
 func execSev(in, out string) {
@@ -154,6 +187,8 @@ func execSev(in, out string) {
 			o.Line("ok")
 		case c == nil:
 			o.Line("bad-op")
+		case t[0] == "kconv" && len(t) == 3:
+			o.Line(safely(func() string { return realKubeExport(wire.Dec(t[1]), wire.Dec(t[2])) }))
 		case t[0] == "sevq":
 			cc := c
 			o.Line(safely(func() string { return cc.realServices() }))
@@ -190,10 +225,46 @@ func genSev(seed uint64, ncases int, out string) {
 			for k := 1 + r.Intn(3); k > 0; k-- {
 				hosts = append(hosts, fmt.Sprintf("h%d-%d.example.com", i, k))
 			}
-			o.Line("se", fmt.Sprintf("se%d", i), wire.Enc(wire.Pick(r, nss)), encItems(hosts, ","))
+			var exp []string
+			for k := r.Intn(4); k > 0; k-- {
+				exp = append(exp, wire.Pick(r, []string{".", "*", "~", "ns1", "ns2", "ns3", "other"}))
+			}
+			o.Line("se", fmt.Sprintf("se%d", i), wire.Enc(wire.Pick(r, nss)), encItems(hosts, ","), encItems(exp, ","))
+		}
+		// the Kubernetes Service annotation networking.istio.io/exportTo: comma separated, spaces around items, empty items
+		for k := 1 + r.Intn(2); k > 0; k-- {
+			var items []string
+			for j := r.Intn(4); j > 0; j-- {
+				it := wire.Pick(r, []string{".", "*", "~", "ns1", "ns2", "other", ""})
+				switch r.Intn(4) {
+				case 0:
+					it = " " + it
+				case 1:
+					it = it + " "
+				}
+				items = append(items, it)
+			}
+			o.Line("kconv", wire.Enc(wire.Pick(r, nss)), wire.Enc(strings.Join(items, ",")))
 		}
 		o.Line("sevq")
 	}
+}
+
+// docExportSet: the set of the written entries (sorted, encoded).
+func docExportSet(items []string, unset bool) string {
+	if unset {
+		return "nil"
+	}
+	seen := map[string]bool{}
+	var l []string
+	for _, x := range items {
+		if !seen[x] {
+			seen[x] = true
+			l = append(l, wire.Enc(x))
+		}
+	}
+	sort.Strings(l)
+	return strings.Join(l, "+")
 }
 
 // oracleSev: every service of a ServiceEntry carries the visibility the documented policy evaluation gives
@@ -214,7 +285,17 @@ func oracleSev(in, out string) {
 			if got != "-" {
 				for _, it := range strings.Split(got, ",") {
 					f := strings.Split(it, "|")
-					seen[wire.Dec(f[0])+"|"+wire.Dec(f[1])] = f[2]
+					seen[wire.Dec(f[0])+"|"+wire.Dec(f[1])] = f[2] + "|" + f[3]
+				}
+			}
+			// annotation networking.istio.io/exportTo: "comma separated list of namespaces" - every item, trimmed
+			for _, k := range cc.kconv {
+				var items []string
+				for _, it := range strings.Split(k[1], ",") {
+					items = append(items, strings.TrimSpace(it))
+				}
+				if g, we := realKubeExport(k[0], k[1]), docExportSet(items, k[1] == ""); g != we {
+					return "kube-exportTo-annotation-not-carried-over " + wire.Enc(k[1]) + " got-" + g + " want-" + we
 				}
 			}
 			for _, se := range cc.ses {
@@ -224,8 +305,13 @@ func oracleSev(in, out string) {
 					if !ok {
 						return "sev-service-missing " + wire.Enc(h)
 					}
-					if g != want {
-						return "sev-visibility-differs-from-documented " + wire.Enc(h) + " " + se.ns + " got-" + g + " want-" + want
+					gv, ge, _ := strings.Cut(g, "|")
+					if gv != want {
+						return "sev-visibility-differs-from-documented " + wire.Enc(h) + " " + se.ns + " got-" + gv + " want-" + want
+					}
+					// the exportTo field of the ServiceEntry is what the service carries: every entry, nothing else
+					if we := docExportSet(se.exportTo, len(se.exportTo) == 0); ge != we {
+						return "serviceentry-exportTo-not-carried-over " + wire.Enc(h) + " " + se.ns + " got-" + ge + " want-" + we
 					}
 				}
 			}
@@ -242,6 +328,10 @@ func oracleSev(in, out string) {
 		if t[0] == "case" {
 			verdict()
 			c = &sevCase{nsLabels: map[string]map[string]string{}}
+			continue
+		}
+		if c != nil && t[0] == "kconv" && len(t) == 3 {
+			c.kconv = append(c.kconv, [2]string{wire.Dec(t[1]), wire.Dec(t[2])})
 			continue
 		}
 		if c != nil {
